@@ -126,6 +126,7 @@ TrfLineOK(i) ==
 
 \* ---- kind "pt": the real PytorchEngineLineOCR around a stub network ---------------------------------------------------
 IsPt == Tr.kind = "pt"
+IsWide == IsPt /\ Tr.wide = 1                \* round 8: stub network with frames of a wide dynamic range (see SpLineOK)
 PtSym(a, k) == 2048 * a + k                 \* character code (relative to lb_common.ABASE) of symbol k of alphabet a
 \* the columns of line i that the network can see: the crop starts at column Pad of its row and rows are at most 480 * bs wide
 \* (lines beyond the engine maximum are truncated there); to the right of the line there is padding only
@@ -157,14 +158,45 @@ PtLineOK(i) ==
                   THEN /\ r.cs = 1 /\ r.a0 = 0
                        /\ nt => r.frames = eHi - eLo
                        /\ Len(r.amax) = r.frames
-                       /\ \A k \in 1..Len(r.amax) : r.amax[k] = PtLab(i, eLo + k - 1)
+                       /\ \A k \in 1..Len(r.amax) : IF IsWide THEN TRUE ELSE r.amax[k] = PtLab(i, eLo + k - 1)
                   ELSE /\ r.cs = 2
                        /\ nt => (r.lo = eLo /\ r.hi = eHi /\ r.hi <= r.frames)
                        /\ r.lo >= 0 /\ r.a0 = r.lo
                        /\ Len(r.amax) = MaxOf(MinOf(r.hi, r.frames) - r.lo, 0)
-                       /\ \A k \in 1..Len(r.amax) : r.amax[k] = PtLab(i, r.a0 + k - 1)
+                       /\ \A k \in 1..Len(r.amax) : IF IsWide THEN TRUE ELSE r.amax[k] = PtLab(i, r.a0 + k - 1)
 
-LineOK(i) == IF IsPt THEN PtLineOK(i) ELSE IF Transformer THEN TrfLineOK(i) ELSE CtcLineOK(i)
+\* ---- kind "pt", wide = 1: the same engine around a stub network whose frames have a WIDE DYNAMIC RANGE (round 8) -----------
+\* Tr.pats = the network's frame patterns [off, ds, fl] (its parameters, recorded as input): the frame whose arg-max class
+\* is cls emits the integer logits  off - D,  D = 0 for cls, ds[j] for class (cls + j) % C (j = 1..Len(ds)), fl for all other
+\* classes (spreads of 60 / 100 / 800, common offsets of +-10^4, several classes within ln(10^4) of the top).  The pattern
+\* of a frame is a function of the row's own pixels: pattern 1 where the frame sees padding only, else chosen by the last
+\* own column in the frame and the image tag.  The arg-max class of the network output stays PtLab, so the text clause of
+\* PtLineOK applies unchanged (its amax clause is replaced: the arg-max of a SPARSE matrix of negative logits is meaningless); res[i].sp =
+\* the stored values of every class at every returned frame inside the window (0 = not stored), judged by SpStoredOK of the
+\* design module: "sparse storage keeps every logit whose posterior is at least 1e-4 unchanged and nothing else".
+SpC == Tr.nsym + 1
+SpPat(i, f) == LET lo == MaxOf(Sub * f, Pad)
+                   hi == MinOf(Sub * f + Sub, Pad + PtVis(i))            \* exclusive
+               IN IF hi <= lo THEN 1 ELSE 2 + (((hi - Pad - 1) \div Sub + i) % (Len(Tr.pats) - 1))
+SpDist(p, j) == IF j = 0 THEN 0 ELSE IF j <= Len(p.ds) THEN p.ds[j] ELSE p.fl
+SpFrameOK(i, f, row) ==
+    LET p == Tr.pats[SpPat(i, f)]
+        cls == PtLab(i, f)
+        s8 == SpSum8(p.ds, p.fl, SpC)
+    IN /\ Len(row) = SpC
+       /\ \A c \in 0..(SpC - 1) :
+             LET D == SpDist(p, (c - cls + SpC) % SpC)
+             IN IF Md.sparse = 1 THEN SpStoredOK(row[c + 1], p.off - D, D, s8) ELSE row[c + 1] = p.off - D
+SpLineOK(i) ==
+    LET r == Tr.res[i]
+        f0 == IF Md.tight = 1 THEN Pad \div Sub ELSE r.a0
+    IN /\ SpC <= SpMaxC /\ Len(Tr.pats) >= 2
+       \* (IF, not \/: TLC splits an action on every disjunction, true disjuncts multiply the successor computations)
+       /\ IF Md.nolog = 1 THEN TRUE
+          ELSE /\ Len(r.sp) = Len(r.amax)
+               /\ \A k \in 1..Len(r.sp) : SpFrameOK(i, f0 + k - 1, r.sp[k])
+
+LineOK(i) == IF IsPt THEN PtLineOK(i) /\ (IF IsWide THEN SpLineOK(i) ELSE TRUE) ELSE IF Transformer THEN TrfLineOK(i) ELSE CtcLineOK(i)
 
 Consumed == /\ Tr.outcome = "ok" /\ Len(batches) = Len(Tr.batches) /\ Len(Tr.res) = Len(w)
             /\ IsPt \/ pending = <<>>
